@@ -256,6 +256,14 @@ Definition r_set_begin := r_list_begin_gen e_read_set.
    the errors of ReadString / ReadI32 are replaced by errReadMessage. *)
 Definition to_msg_err {A} (r : res A) : res A :=
   match r with Err _ => Err e_read_message | x => x end.
+(* the method name: a negative length keeps its own error (NEGATIVE_SIZE), everything else is
+   reported as errReadMessage *)
+Definition to_msg_err_name {A} (r : res A) : res A :=
+  match r with
+  | Err e => if (e =? e_neg_size)%Z then Err e_neg_size else Err e_read_message
+  | _ => r
+  end.
+
 Definition r_message_begin (buf : bytes) : res (bytes * Z * Z * N) :=
   if len buf <? 4 then Err e_read_message
   else
@@ -264,7 +272,7 @@ Definition r_message_begin (buf : bytes) : res (bytes * Z * Z * N) :=
     else
       let ty := Z.of_N (N.land header (Z.to_N thrift_msgTypeMask)) in
       do b1 <- slice_from buf 4;
-      do (name, l) <- to_msg_err (r_string b1);
+      do (name, l) <- to_msg_err_name (r_string b1);
       let off := 4 + l in
       do b2 <- slice_from buf off;
       do (seq, l2) <- to_msg_err (r_i32 b2);
